@@ -122,6 +122,21 @@ def gen_form(rng):
     return dict(a, acts=["as:" + rng.choice(["tuple", "set", "frozenset", "keys"])] + a["acts"])
 
 
+def gen_newloop(rng):
+    """the same bridge OBJECT used under one event loop after another (asyncio.run called again, a worker restarted): stopped, it
+    belongs to no loop, and starts under the next one like a new bridge"""
+    n = rng.randrange(1, 4)
+    acts = []
+    for _ in range(rng.randrange(2, 4)):
+        for _ in range(rng.randrange(1, 5)):
+            k = rng.random()
+            i = rng.randrange(n)
+            acts.append("start" if k < 0.35 else "stop" if k < 0.5 else f"send:{i}" if k < 0.85 else "enter" if k < 0.93 else "leave")
+        acts += ["stop", "newloop"]
+    acts += ["start", "send:0", "stop", "send:0"]
+    return {"ports": n, "acts": acts}
+
+
 FIXED = [{"ports": 3, "acts": ["occ:2", "start", "send:0", "send:1", "rel:2", "start", "send:0", "send:2", "stop", "send:0", "start", "start", "send:1", "stop", "stop"]},
          {"ports": 1, "acts": ["stop", "stop", "start", "send:0", "stop", "send:0", "start", "send:0"]},
          {"ports": 2, "acts": ["enter", "send:1", "leave", "send:1", "enter", "enter", "send:0", "leave"]},
@@ -147,6 +162,8 @@ def streams(ctx):
     ctx.run_cases(LIFE, "ports-handed-over-in-another-container", [{"ports": 3, "acts": ["as:set", "bad:2", "start", "send:0", "stop"]},
                                                                    {"ports": 3, "acts": ["as:tuple", "occ:1", "start", "send:0", "rel:1", "start", "send:2", "stop"]}]
                   + [gen_form(rng) for _ in range(ctx.n(20, 300))], exhaustive=False, sample_every=9)
+    ctx.run_cases(LIFE, "the-same-bridge-object-under-one-event-loop-after-another", [{"ports": 2, "acts": ["start", "send:0", "stop", "newloop", "start", "send:1", "stop", "send:1"]}]
+                  + [gen_newloop(rng) for _ in range(ctx.n(12, 200))], exhaustive=False, sample_every=5)
     ctx.run_cases(LIFE, "random-action-sequences", [gen(rng) for _ in range(ctx.n(110, 2500))], exhaustive=False, sample_every=50)
 
 
